@@ -52,11 +52,15 @@ type State struct {
 	Mem   map[*Obj]Val      // contents of Go-side objects
 	Heap  map[string]string // modified field-heap arrays (key -> term); absent = entry heap
 	Out   []string          // ghost output stream (terms), for determinism obligations
+	Ghost map[string]string // ghost state (name -> term)
 	Depth int
 }
 
 func (s *State) Clone() *State {
-	n := &State{PC: append([]string(nil), s.PC...), Mem: make(map[*Obj]Val, len(s.Mem)), Heap: make(map[string]string, len(s.Heap)), Out: append([]string(nil), s.Out...), Depth: s.Depth}
+	n := &State{PC: append([]string(nil), s.PC...), Mem: make(map[*Obj]Val, len(s.Mem)), Heap: make(map[string]string, len(s.Heap)), Out: append([]string(nil), s.Out...), Depth: s.Depth, Ghost: make(map[string]string, len(s.Ghost))}
+	for k, v := range s.Ghost {
+		n.Ghost[k] = v
+	}
 	if s.Fr != nil {
 		n.Fr = s.Fr.clone()
 	}
@@ -265,9 +269,21 @@ func (ex *Exec) Zero(st *State, t types.Type) Val {
 	return Opaque{Typ: t, Why: "type not modelled"}
 }
 
+// constArr is the all-zero array. For Int/Bool elements it is an SMT constant array; for
+// uninterpreted element sorts (Str, Ref) cvc5 wants a value there, so a named array with a
+// quantified definition is used instead.
 func (ex *Exec) constArr(elem types.Type) string {
 	s := mustSort(elem)
-	return "((as const (Array Int " + s + ")) " + zeroTerm(s) + ")"
+	if s == "Int" || s == "Bool" {
+		return "((as const (Array Int " + s + ")) " + zeroTerm(s) + ")"
+	}
+	name := "zeroarr_" + s
+	if !ex.Ctx.Has(name) {
+		ex.Ctx.Declare(name, nil, "(Array Int "+s+")")
+		ex.Ctx.Define(name, "")
+		ex.Ctx.AddAxiom("(forall ((k Int)) (! (= (select " + name + " k) " + zeroTerm(s) + ") :pattern ((select " + name + " k))))")
+	}
+	return name
 }
 
 // ---------------------------------------------------------------- heap
